@@ -41,12 +41,10 @@ request caused, `steps` scheduler steps.
 Known limit: `GET /` (welcome page, `?t=json`) needs `IServer.get_connection_status()`, which vf.grid.VIServer
 does not provide -> 500.  Everything under /uri, /file, /named, /operations, /status, /statistics works.
 """
-import os
 from urllib.parse import quote as _quote
 
 from vf import env
 
-from twisted.application import service  # noqa: F401  (kept for callers)
 from twisted.python.failure import Failure
 from twisted.web.http_headers import Headers
 
